@@ -36,7 +36,7 @@ EvalRecipe(s, rc, v, env, dep) ==
     [] rc.r \in {"map", "chain"} -> F2(rc.f, v, EvalD(s, rc.over, env, dep - 1))
     [] rc.r = "alt"   -> EvalRecipe(s, rc.alts[v[2] + 1], v, env, dep)
     [] rc.r = "bind"  -> EvalRecipe(s, rc.inner, EvalD(s, rc.over, env, dep - 1), env, dep)
-    [] rc.r \in {"junk", "leak"} -> EvalRecipe(s, rc.then, v, env, dep)
+    [] rc.r \in {"junk", "leak", "boom"} -> EvalRecipe(s, rc.then, v, env, dep)
     [] rc.r = "memo"  -> IF s.memos[rc.m].f = "const" THEN v
                          ELSE F2(s.memos[rc.m].f, v, EvalD(s, s.memos[rc.m].over, env, dep - 1))
 EvalD(s, n, env, dep) ==
@@ -61,7 +61,7 @@ RecipeExisting(rc, v) ==
   CASE rc.r = "pick" -> rc.alts[v[2] + 1]
     [] rc.r = "ref"  -> v[2]
     [] rc.r = "alt"  -> RecipeExisting(rc.alts[v[2] + 1], v)
-    [] rc.r \in {"junk", "leak"} -> RecipeExisting(rc.then, v)
+    [] rc.r \in {"junk", "leak", "boom"} -> RecipeExisting(rc.then, v)
     [] OTHER -> 0
 
 (* Reference invalidity: superseded bind generations and what depends on them *)
@@ -134,7 +134,7 @@ RefReadS(s, o) ==
 RECURSIVE HasMemo(_)
 HasMemo(rc) == CASE rc.r = "memo" -> TRUE
                  [] rc.r = "alt" -> \E i \in 1..Len(rc.alts) : HasMemo(rc.alts[i])
-                 [] rc.r \in {"junk", "leak"} -> HasMemo(rc.then)
+                 [] rc.r \in {"junk", "leak", "boom"} -> HasMemo(rc.then)
                  [] rc.r = "bind" -> HasMemo(rc.inner)
                  [] OTHER -> FALSE
 ValueTag(s, o) ==
@@ -234,6 +234,7 @@ ApplyRaw(s, e) ==
     [] e.a = "xsum"     -> ApiXSum(s, e.sel, e.ins)
     [] e.a = "cutoff"   -> ApiSetCutoff(s, e.n, [c |-> e.c])
     [] e.a = "xarm"     -> ApiXArm(s, e.n)
+    [] e.a = "on_update" -> ApiOnUpdate(s, e.n)
     [] e.a = "write"    -> VarWrite(s, e.n, e.op, e.x)
     [] e.a = "observe"  -> ApiObserve(s, e.n)
     [] e.a = "observe_leaked" -> ApiObserve(s, s.leaked[e.i])
@@ -340,7 +341,7 @@ AuditCounters(s) ==
                        RECURSIVE Sum(_)
                        Sum(t) == IF t = {} THEN 0 ELSE
                                  LET o == CHOOSE x \in t : TRUE IN Len(s.osubs[o]) + Sum(t \ {o})
-                   IN Sum(os)
+                   IN Sum(os) + Len(s.nsubs[n])
   /\ \A n \in 1..s.n : s.nobs[n] = {o \in 1..s.no : s.onode[o] = n /\ s.ostate[o] \in {"inuse", "disallowed"}}
 AuditStable(s) ==
   \* right after a stabilise: heap empty, every necessary valid node has a value
